@@ -42,7 +42,8 @@ def gclass(ctx, c):
     if k:
         return k[0]
     for name, rs in G_CLASSES:
-        if ctx.branch(in_ranges(c, rs)):
+        cond = in_ranges(c, rs) if isinstance(c.v, int) else ctx.char_pred('g' + name, c, lambda cc, rs=rs: in_ranges(cc, rs))
+        if ctx.branch(cond):
             ctx.width_cache[key] = (name, c.v)
             return name
     raise Unsupported('character outside the grapheme-model alphabet')
